@@ -21,6 +21,7 @@ var carrierFamilies = []struct{ Name, Reason string }{
 	{"error", "error values: every wrapper is constructed around an already existing error and never updated afterwards"},
 	{"bcl-ast", "BCL syntax tree (internal/bcl/internal/parser): nodes are freshly allocated by the recursive-descent parser, children before parents"},
 	{"schema-items", "j5schema ArrayField/MapField item nesting: the item schema is built before the container that holds it (buildSchema), named references go through RefSchema which is not in this family"},
+	{"source-nodes", "sourcewalk node structs (FieldNode, PropertyNode, …): wrappers built by buildFieldNode around sub-terms of the source schema message, children before parents"},
 	{"slice", "slices and strings: an index, a range element or a re-slice x[k:] with k ≥ 1 is strictly smaller than x"},
 }
 
@@ -51,6 +52,10 @@ func (d *descent) family(t types.Type) string {
 			}
 			if _, isIface := n.Underlying().(*types.Interface); isIface {
 				return "bcl-ast"
+			}
+		case strings.HasSuffix(path, "/internal/j5s/sourcewalk"):
+			if _, isStruct := n.Underlying().(*types.Struct); isStruct && strings.HasSuffix(n.Obj().Name(), "Node") {
+				return "source-nodes"
 			}
 		case strings.HasSuffix(path, "/lib/j5schema"):
 			switch n.Obj().Name() {
